@@ -114,31 +114,70 @@ Theorem C10_segmentation_any :
 Proof. exact ident_segs_concat. Qed.
 Print Assumptions C10_segmentation_any.
 
-(* in the control block: while the stream completes no signature nothing is answered
-   and [t_smack] is the state of the one-shot search *)
+(* in the control block: while the stream completes no signature nothing is answered,
+   [t_smack] is the state of the one-shot search, and [t_pending] holds the bytes kept so
+   far ([pending_after]: a segment is appended as long as the total is at most PENDING_MAX,
+   otherwise the buffer is dropped) ... *)
 Theorem C10_segmentation_tcb :
   forall E clk ci, smack_ok (e_proto_tbl E) = true -> sm_rows (e_proto_tbl E) <= TWO24 ->
   forall segs tc st' n,
     t_proto tc = PROTO_NONE -> plain (e_proto_tbl E) (t_smack tc) ->
     search_next (e_proto_tbl E) (t_smack tc) (concat segs) = (None, st', n) ->
     tcp_feed E clk ci tc segs =
-    Ok (ci, {| t_smack := st'; t_proto := PROTO_NONE; t_pstate := t_pstate tc |}, repeat None (length segs)).
+    Ok (ci, {| t_smack := st'; t_proto := PROTO_NONE; t_pstate := t_pstate tc;
+               t_pending := pending_after (t_pending tc) segs |}, repeat None (length segs)).
 Proof. exact tcp_feed_unidentified. Qed.
 Print Assumptions C10_segmentation_tcb.
 
+(* ... which is all of them as long as they are at most PENDING_MAX: on a fresh flow the
+   control block holds exactly the one-shot search state and the bytes received so far *)
+Theorem C10_segmentation_pending :
+  forall segs p, lenN p + lenN (concat segs) <= PENDING_MAX -> pending_after p segs = p ++ concat segs.
+Proof. exact pending_after_small. Qed.
+Print Assumptions C10_segmentation_pending.
+
+Theorem C10_segmentation_tcb_new :
+  forall E clk ci, smack_ok (e_proto_tbl E) = true -> sm_rows (e_proto_tbl E) <= TWO24 ->
+  forall segs st' n,
+    0 < sm_rows (e_proto_tbl E) -> 0 < sm_match_limit (e_proto_tbl E) ->
+    lenN (concat segs) <= PENDING_MAX ->
+    search_next (e_proto_tbl E) BASE_STATE (concat segs) = (None, st', n) ->
+    tcp_feed E clk ci tcb_new segs =
+    Ok (ci, {| t_smack := st'; t_proto := PROTO_NONE; t_pstate := None; t_pending := concat segs |},
+        repeat None (length segs)).
+Proof. exact tcp_feed_unidentified_new. Qed.
+Print Assumptions C10_segmentation_tcb_new.
+
+(* the bound loses nothing on the current table: a stream whose first 28 bytes complete no
+   signature never completes one (per-run computed fact), so a signature is completed while
+   everything received is still in the buffer *)
+Theorem C10_identified_early :
+  forall s a i, bytes_ok (s ++ a) = true ->
+    tcp_first_id the_env s = None -> tcp_first_id the_env (s ++ a) = Some i ->
+    (length s < 28)%nat /\ lenN s <= PENDING_MAX.
+Proof. exact current_ident_within. Qed.
+Print Assumptions C10_identified_early.
+
+Theorem C10_unidentified_forever :
+  forall s a, bytes_ok (s ++ a) = true -> (28 <= length s)%nat ->
+    tcp_first_id the_env s = None -> tcp_first_id the_env (s ++ a) = None.
+Proof. exact current_unidentified_forever. Qed.
+Print Assumptions C10_unidentified_forever.
+
 (* the current implementation against the reference: however the leading bytes are cut,
    the segments before the one in which the published set completes a signature get no
-   payload, and that segment is handed to the responder of the reference's id *)
+   payload (they are kept in the control block), and the responder of the reference's id
+   is handed the whole stream up to the end of that segment *)
 Theorem C10_segmentation_current :
   forall clk ci segs a id,
     bytes_ok (concat segs ++ a) = true -> D0_tcp K0 (concat segs ++ a) = false ->
     ref_tcp (concat segs) = None -> ref_tcp (concat segs ++ a) = Some id ->
     exists st1 st',
-      tcp_feed the_env clk ci tcb_new segs =
-        Ok (ci, {| t_smack := st1; t_proto := PROTO_NONE; t_pstate := None |}, repeat None (length segs)) /\
-      proto_repl_tcp the_env clk ci {| t_smack := st1; t_proto := PROTO_NONE; t_pstate := None |} a =
-        (let tc1 := {| t_smack := st'; t_proto := id; t_pstate := None |} in
-         do r <- dispatch the_env clk ci id (Some tc1) a;
+      let tc0 := {| t_smack := st1; t_proto := PROTO_NONE; t_pstate := None; t_pending := concat segs |} in
+      tcp_feed the_env clk ci tcb_new segs = Ok (ci, tc0, repeat None (length segs)) /\
+      proto_repl_tcp the_env clk ci tc0 a =
+        (let tc1 := {| t_smack := st'; t_proto := id; t_pstate := None; t_pending := [] |} in
+         do r <- dispatch the_env clk ci id (Some tc1) (concat segs ++ a);
          let '(ci', t', out) := r in Ok (ci', match t' with Some x => x | None => tc1 end, out)).
 Proof. exact current_segmentation. Qed.
 Print Assumptions C10_segmentation_current.
@@ -166,14 +205,15 @@ Print Assumptions C10_dispatch_udp.
 Theorem C10_dispatch_tcp_none :
   forall E clk ci p, tcp_first_id E p = None ->
     exists st, proto_repl_tcp E clk ci tcb_new p =
-               Ok (ci, {| t_smack := st; t_proto := PROTO_NONE; t_pstate := None |}, None).
+               Ok (ci, {| t_smack := st; t_proto := PROTO_NONE; t_pstate := None;
+                          t_pending := if lenN p <=? PENDING_MAX then p else [] |}, None).
 Proof. exact dispatch_tcp_none. Qed.
 Print Assumptions C10_dispatch_tcp_none.
 
 Theorem C10_dispatch_tcp_some :
   forall E clk ci p id, tcp_first_id E p = Some id ->
     exists st, proto_repl_tcp E clk ci tcb_new p =
-      (let tc1 := {| t_smack := st; t_proto := id; t_pstate := None |} in
+      (let tc1 := {| t_smack := st; t_proto := id; t_pstate := None; t_pending := [] |} in
        do r <- dispatch E clk ci id (Some tc1) p;
        let '(ci', t', out) := r in Ok (ci', match t' with Some x => x | None => tc1 end, out)).
 Proof. exact dispatch_tcp_some. Qed.
@@ -228,7 +268,8 @@ Theorem C10_no_signature_tcp :
   forall clk ci p, bytes_ok p = true -> c10_class_payload true p = false ->
     ref_tcp p = None ->
     exists st, proto_repl_tcp the_env clk ci tcb_new p =
-               Ok (ci, {| t_smack := st; t_proto := PROTO_NONE; t_pstate := None |}, None).
+               Ok (ci, {| t_smack := st; t_proto := PROTO_NONE; t_pstate := None;
+                          t_pending := if lenN p <=? PENDING_MAX then p else [] |}, None).
 Proof. exact current_no_signature_tcp. Qed.
 Print Assumptions C10_no_signature_tcp.
 
@@ -243,7 +284,7 @@ Theorem C10_signature_tcp :
   forall clk ci p id, bytes_ok p = true -> c10_class_payload true p = false ->
     ref_tcp p = Some id ->
     exists st, proto_repl_tcp the_env clk ci tcb_new p =
-      (let tc1 := {| t_smack := st; t_proto := id; t_pstate := None |} in
+      (let tc1 := {| t_smack := st; t_proto := id; t_pstate := None; t_pending := [] |} in
        do r <- dispatch the_env clk ci id (Some tc1) p;
        let '(ci', t', out) := r in Ok (ci', match t' with Some x => x | None => tc1 end, out)).
 Proof. exact current_signature_tcp. Qed.
